@@ -80,7 +80,7 @@ def module_funcs(ctx, rel, cls=None, exclude=()):
 
 
 class Sem:
-    def __init__(self, ctx, fn, cond=None, pinned=None, call=None, binop=None, env=None, run=True, subscript=None, inline=None, erase_T=False, loop_once=False):
+    def __init__(self, ctx, fn, cond=None, pinned=None, call=None, binop=None, env=None, run=True, subscript=None, inline=None, erase_T=False, loop_once=False, loop_unroll=0, forward_stores=False):
         self.ctx = ctx
         self.fn = fn
         self.ev = AutoEvaluator(fn, src=ctx.src, cond=cond, pinned=pinned, call=call, binop=binop, env=env, subscript=subscript)
@@ -88,6 +88,8 @@ class Sem:
             self.ev.inline = {k: v for k, v in inline.items() if v is not fn}
         self.ev.erase_T = erase_T
         self.ev.loop_once = loop_once
+        self.ev.loop_unroll = loop_unroll
+        self.ev.forward_stores = forward_stores
         if run:
             body = fn.body
             self.ev.run(body)
